@@ -105,7 +105,7 @@ def std_loss(simplex, values, value_scale):
 
     dim = len(simplex) - 1
 
-    return r.flat * np.power(vol, 1.0 / dim) + vol
+    return r * np.power(vol, 1.0 / dim) + vol
 
 
 def default_loss(simplex, values, value_scale):
